@@ -18,6 +18,10 @@ CLAIMED = {
   text="Deductive proof of the recursive GeminiClient._get_with_redirects and of GeminiClient.get against contracts taken from the statement, for all URLs, limits, visited lists and server responses: connections opened <= max(0, max_redirects+1-len(chain)); every requested URL has scheme gemini and was not requested before in the fetch (ghost set == visited list); a returned response is never a gemini:// redirect; 'Maximum redirects' only after more than max_redirects redirects (so chains of at most max_redirects are followed); 'Redirect loop' only for a visited URL; follow_redirects=False makes exactly one _get_single call and returns its result unchanged. Recursion by rule R3 with a decreasing measure obligation.",
   note="Assumed: contract of _get_single (one connection per call, to the URL's host, pin-checked; any status 10..69 and any meta may come back) and of validate_url (returns only for gemini URLs) - those are decided under C03/C11/C13/C08; R3 recursion rule; the callee's append to the shared visited list is unobservable because the recursive call is in tail position (checked on the AST).",
   technique="contract-based deductive verification: pyvc VCs over the real recursive function (ghost counters, quantified ghost-set invariant), z3", ref="6/C16"),
+ "C19": dict(
+  text="Deductive proof over the real parse_url/normalize_url/validate_url that, for every accepted URL, the components are those urlsplit reports (scheme gemini, lower-cased host, no non-empty user-info or fragment, port 0..65535 or 1965, path intact including ';', query), that they are well-formed, and that normalized equals the canonical RFC 3986 rendering of (hostname, port, path, query) - IPv6 literals bracketed, default port omitted - hence a function of the components only. Acceptance/same-meaning/idempotence of the normalised form then follow from the assumed urllib lemma LEMMA-CANON (urlsplit of a canonical rendering returns the components), which the thorough tier exercises against the real urllib (bounded).",
+  note="Assumed: E7 urllib.parse model (pyvc/urlmodel.py: component charset facts, shape, authority split as in CPython's _hostinfo) and LEMMA-CANON; E6 UTF-8 codec lemmas; lower() uninterpreted (idempotent, length- and delimiter-preserving). Empty user-info ('@') and empty fragment ('#') are grey zones not asserted. The deductive part does not re-execute parse_url on the normalised string (solvers cannot do the IndexOf reasoning); that step is the assumed lemma.",
+  technique="contract-based deductive verification: pyvc VCs over the real functions with an uninterpreted-function model of urllib; z3 + cvc5 (strings)", ref="6/C19"),
 }
 NA_REASON = "check not built yet (work in progress; see DESIGN.md section 6 for the plan)"
 
